@@ -464,3 +464,503 @@ Theorem C14_sm2_private_key_decode_determines_whole_key : forall pub_of pt_ok in
   len (k_priv k) = 32 /\ d_ok (k_priv k) = true /\ k_pub k = pub_of (k_priv k) /\ len (k_pub k) = 64.
 Proof. exact sm2_privkey_from_der_whole. Qed.
 Print Assumptions C14_sm2_private_key_decode_determines_whole_key.
+
+(* ---- wave 5: asn1_bits, AlgorithmIdentifiers over the library's own OID tables (Codec/OidTables.v is generated
+   from the sources), SM9 key containers (Codec/Sm9Key.v; point validity, PBKDF2 and SM4-CBC are parameters, the
+   seal/open round trips carry the cipher-inversion premises) *)
+From GmVerif Require Import Codec.BitsProofs Codec.OidTables Codec.X509 Codec.X509Proofs Codec.Sm9Key Codec.Sm9KeyProofs.
+Theorem C14_bits_roundtrip :
+  forall (tag : N) (v : Z) (e rest : list N),
+  (0 <= v < 2 ^ 31)%Z ->
+  bits_to_der tag v = Ok e -> bits_from_der Fixed tag (e ++ rest) = Ok (Z.to_N v, rest).
+Proof. exact bits_roundtrip. Qed.
+Print Assumptions C14_bits_roundtrip.
+
+Theorem C14_bits_dry_run_length :
+  forall (tag : N) (v : Z) (e : list N), (0 <= v)%Z -> bits_to_der tag v = Ok e -> bits_size v = len e.
+Proof. exact bits_dry. Qed.
+Print Assumptions C14_bits_dry_run_length.
+
+Theorem C14_bits_decoded_range :
+  forall (tag : N) (inp : list N) (v : N) (rest : list N),
+  bits_from_der Fixed tag inp = Ok (v, rest) -> v < 2 ^ 31.
+Proof. exact bits_from_der_range. Qed.
+Print Assumptions C14_bits_decoded_range.
+
+Theorem C14_bits_trailing_zero_bits_accepted :
+  bits_to_der 3 0 = Ok [3; 2; 7; 0] /\
+  bits_from_der Fixed 3 [3; 2; 7; 0] = Ok (0, []) /\ bits_from_der Fixed 3 [3; 2; 6; 0] = Ok (0, []).
+Proof. exact bits_not_canonical. Qed.
+Print Assumptions C14_bits_trailing_zero_bits_accepted.
+
+Theorem C14_digest_algorithm_identifier_roundtrip :
+  forall (id : Z) (e : list N),
+  digest_algor_to_der id = Ok e -> digest_algor_from_der true e = Ok (id, []).
+Proof. exact digest_algor_roundtrip. Qed.
+Print Assumptions C14_digest_algorithm_identifier_roundtrip.
+
+Theorem C14_signature_algorithm_identifier_roundtrip :
+  forall (id : Z) (e : list N), sign_algor_to_der id = Ok e -> sign_algor_from_der e = Ok (id, []).
+Proof. exact sign_algor_roundtrip. Qed.
+Print Assumptions C14_signature_algorithm_identifier_roundtrip.
+
+Theorem C14_pke_algorithm_identifier_roundtrip :
+  forall (id : Z) (e : list N), pke_algor_to_der id = Ok e -> pke_algor_from_der e = Ok (id, PNull, []).
+Proof. exact pke_algor_roundtrip. Qed.
+Print Assumptions C14_pke_algorithm_identifier_roundtrip.
+
+Theorem C14_oid_tables_injective :
+  forallb
+  (fun tab : oid_tab =>
+  forallb (fun '(id, ns) => match id_of tab ns with
+  | Some i => (i =? id)%Z
+  | None => false
+  end) tab)
+  [tab_digest_algors; tab_sign_algors; tab_pke_algors; tab_ext_ids; tab_key_purposes;
+  tab_cms_content_types; tab_x509_enc_algors; tab_public_key_algors; tab_named_curves;
+  tab_name_types; tab_qt_ids; tab_access_methods; tab_crl_entry_exts; tab_crl_exts] = true.
+Proof. exact oid_tables_injective. Qed.
+Print Assumptions C14_oid_tables_injective.
+
+Theorem C14_sm9_oid_roundtrip :
+  forall (id : Z) (e rest : list N),
+  sm9_oid_to_der id = Ok e -> sm9_oid_from_der (e ++ rest) = Ok (id, rest).
+Proof. exact sm9_oid_roundtrip. Qed.
+Print Assumptions C14_sm9_oid_roundtrip.
+
+Theorem C14_sm9_algorithm_identifier_roundtrip :
+  forall (alg par : Z) (e rest : list N),
+  sm9_algor_to_der alg par = Ok e -> sm9_algor_from_der (e ++ rest) = Ok (alg, par, rest).
+Proof. exact sm9_algor_roundtrip. Qed.
+Print Assumptions C14_sm9_algorithm_identifier_roundtrip.
+
+Theorem C14_sm9_private_key_info_roundtrip :
+  forall (alg par : Z) (key e rest : list N),
+  s9_pki_to_der alg par key = Ok e -> s9_pki_from_der (e ++ rest) = Ok (alg, par, key, rest).
+Proof. exact s9_pki_roundtrip. Qed.
+Print Assumptions C14_sm9_private_key_info_roundtrip.
+
+Theorem C14_sm9_sign_master_key_roundtrip :
+  (list N -> bool) ->
+  forall (g2_ok : list N -> bool) (k : sign_msk) (e rest : list N),
+  length (sm_ks k) = 32%nat ->
+  be_to_N (sm_ks k) < sm9_n ->
+  length (sm_Ppubs k) = 128%nat ->
+  g2_ok (4 :: sm_Ppubs k) = true ->
+  sign_msk_to_der k = Ok e -> sign_msk_from_der g2_ok (e ++ rest) = Ok (k, rest).
+Proof. exact sign_msk_roundtrip. Qed.
+Print Assumptions C14_sm9_sign_master_key_roundtrip.
+
+Theorem C14_sm9_sign_master_public_key_roundtrip :
+  (list N -> bool) ->
+  forall (g2_ok : list N -> bool) (k : sign_msk) (e rest : list N),
+  length (sm_Ppubs k) = 128%nat ->
+  g2_ok (4 :: sm_Ppubs k) = true ->
+  sign_mpk_to_der k = Ok e ->
+  sign_mpk_from_der g2_ok (e ++ rest) = Ok ({| sm_ks := zeros 32; sm_Ppubs := sm_Ppubs k |}, rest).
+Proof. exact sign_mpk_roundtrip. Qed.
+Print Assumptions C14_sm9_sign_master_public_key_roundtrip.
+
+Theorem C14_sm9_sign_key_roundtrip :
+  forall (g1_ok g2_ok : list N -> bool) (k : sign_key) (e rest : list N),
+  length (sk_ds k) = 64%nat ->
+  g1_ok (4 :: sk_ds k) = true ->
+  length (sk_Ppubs k) = 128%nat ->
+  g2_ok (4 :: sk_Ppubs k) = true ->
+  sign_key_to_der k = Ok e -> sign_key_from_der g1_ok g2_ok (e ++ rest) = Ok (k, rest).
+Proof. exact sign_key_roundtrip. Qed.
+Print Assumptions C14_sm9_sign_key_roundtrip.
+
+Theorem C14_sm9_enc_master_key_roundtrip :
+  forall g1_ok : list N -> bool,
+  (list N -> bool) ->
+  forall (k : enc_msk) (e rest : list N),
+  length (em_ke k) = 32%nat ->
+  be_to_N (em_ke k) < sm9_n ->
+  length (em_Ppube k) = 64%nat ->
+  g1_ok (4 :: em_Ppube k) = true ->
+  enc_msk_to_der k = Ok e -> enc_msk_from_der g1_ok (e ++ rest) = Ok (k, rest).
+Proof. exact enc_msk_roundtrip. Qed.
+Print Assumptions C14_sm9_enc_master_key_roundtrip.
+
+Theorem C14_sm9_enc_master_public_key_roundtrip :
+  forall g1_ok : list N -> bool,
+  (list N -> bool) ->
+  forall (k : enc_msk) (e rest : list N),
+  length (em_Ppube k) = 64%nat ->
+  g1_ok (4 :: em_Ppube k) = true ->
+  enc_mpk_to_der k = Ok e ->
+  enc_mpk_from_der g1_ok (e ++ rest) = Ok ({| em_ke := zeros 32; em_Ppube := em_Ppube k |}, rest).
+Proof. exact enc_mpk_roundtrip. Qed.
+Print Assumptions C14_sm9_enc_master_public_key_roundtrip.
+
+Theorem C14_sm9_enc_key_roundtrip :
+  forall (g1_ok g2_ok : list N -> bool) (k : enc_key) (e rest : list N),
+  length (ek_de k) = 128%nat ->
+  g2_ok (4 :: ek_de k) = true ->
+  length (ek_Ppube k) = 64%nat ->
+  g1_ok (4 :: ek_Ppube k) = true ->
+  enc_key_to_der k = Ok e -> enc_key_from_der g1_ok g2_ok (e ++ rest) = Ok (k, rest).
+Proof. exact enc_key_roundtrip. Qed.
+Print Assumptions C14_sm9_enc_key_roundtrip.
+
+Theorem C14_sm9_sign_master_key_decode_sound :
+  (list N -> bool) ->
+  forall (g2_ok : list N -> bool) (inp : list N) (k : sign_msk) (rest : list N),
+  sign_msk_from_der g2_ok inp = Ok (k, rest) ->
+  length (sm_ks k) = 32%nat /\
+  be_to_N (sm_ks k) < sm9_n /\ len (sm_Ppubs k) = 128 /\ g2_ok (4 :: sm_Ppubs k) = true.
+Proof. exact sign_msk_from_der_sound. Qed.
+Print Assumptions C14_sm9_sign_master_key_decode_sound.
+
+Theorem C14_sm9_sign_key_decode_sound :
+  forall (g1_ok g2_ok : list N -> bool) (inp : list N) (k : sign_key) (rest : list N),
+  sign_key_from_der g1_ok g2_ok inp = Ok (k, rest) ->
+  len (sk_ds k) = 64 /\
+  g1_ok (4 :: sk_ds k) = true /\ len (sk_Ppubs k) = 128 /\ g2_ok (4 :: sk_Ppubs k) = true.
+Proof. exact sign_key_from_der_sound. Qed.
+Print Assumptions C14_sm9_sign_key_decode_sound.
+
+Theorem C14_sm9_enc_master_key_decode_sound :
+  forall g1_ok : list N -> bool,
+  (list N -> bool) ->
+  forall (inp : list N) (k : enc_msk) (rest : list N),
+  enc_msk_from_der g1_ok inp = Ok (k, rest) ->
+  length (em_ke k) = 32%nat /\
+  be_to_N (em_ke k) < sm9_n /\ len (em_Ppube k) = 64 /\ g1_ok (4 :: em_Ppube k) = true.
+Proof. exact enc_msk_from_der_sound. Qed.
+Print Assumptions C14_sm9_enc_master_key_decode_sound.
+
+Theorem C14_sm9_enc_key_decode_sound :
+  forall (g1_ok g2_ok : list N -> bool) (inp : list N) (k : enc_key) (rest : list N),
+  enc_key_from_der g1_ok g2_ok inp = Ok (k, rest) ->
+  len (ek_de k) = 128 /\
+  g2_ok (4 :: ek_de k) = true /\ len (ek_Ppube k) = 64 /\ g1_ok (4 :: ek_Ppube k) = true.
+Proof. exact enc_key_from_der_sound. Qed.
+Print Assumptions C14_sm9_enc_key_decode_sound.
+
+Theorem C14_sm9_sign_and_enc_types_distinct :
+  forall (g1_ok g2_ok : list N -> bool) (sm : sign_msk) (em : enc_msk) (sk : sign_key) 
+  (ek : enc_key) (rest : list N),
+  length (sm_ks sm) = 32%nat ->
+  length (sm_Ppubs sm) = 128%nat ->
+  length (em_ke em) = 32%nat ->
+  length (em_Ppube em) = 64%nat ->
+  length (sk_ds sk) = 64%nat ->
+  length (sk_Ppubs sk) = 128%nat ->
+  length (ek_de ek) = 128%nat ->
+  length (ek_Ppube ek) = 64%nat ->
+  (forall e : list N, sign_msk_to_der sm = Ok e -> enc_msk_from_der g1_ok (e ++ rest) = Err) /\
+  (forall e : list N, enc_msk_to_der em = Ok e -> sign_msk_from_der g2_ok (e ++ rest) = Err) /\
+  (forall e : list N, sign_mpk_to_der sm = Ok e -> enc_mpk_from_der g1_ok (e ++ rest) = Err) /\
+  (forall e : list N, enc_mpk_to_der em = Ok e -> sign_mpk_from_der g2_ok (e ++ rest) = Err) /\
+  (forall e : list N, sign_key_to_der sk = Ok e -> enc_key_from_der g1_ok g2_ok (e ++ rest) = Err) /\
+  (forall e : list N, enc_key_to_der ek = Ok e -> sign_key_from_der g1_ok g2_ok (e ++ rest) = Err).
+Proof. exact sign_enc_types_distinct. Qed.
+Print Assumptions C14_sm9_sign_and_enc_types_distinct.
+
+Theorem C14_sm9_signature_roundtrip :
+  forall g1_ok : list N -> bool,
+  (list N -> bool) ->
+  forall h sp e rest : list N,
+  length h = 32%nat ->
+  be_to_N h < sm9_n ->
+  length sp = 64%nat ->
+  g1_ok (4 :: sp) = true ->
+  sm9_sig_to_der h sp = Ok e -> sm9_sig_from_der g1_ok (e ++ rest) = Ok (h, sp, rest).
+Proof. exact sm9_sig_roundtrip. Qed.
+Print Assumptions C14_sm9_signature_roundtrip.
+
+Theorem C14_sm9_ciphertext_roundtrip :
+  forall g1_ok : list N -> bool,
+  (list N -> bool) ->
+  forall C1 c2 c3 e rest : list N,
+  length C1 = 64%nat ->
+  g1_ok (4 :: C1) = true ->
+  len c3 = 32 ->
+  len c2 <= 1048576 ->
+  sm9_ct_to_der C1 c2 c3 = Ok e -> sm9_ct_from_der g1_ok (e ++ rest) = Ok (C1, c2, c3, rest).
+Proof. exact sm9_ct_roundtrip. Qed.
+Print Assumptions C14_sm9_ciphertext_roundtrip.
+
+Theorem C14_sm9_encrypted_key_open_sound :
+  (list N -> bool) ->
+  (list N -> bool) ->
+  forall (kdf : list N -> list N -> Z -> list N)
+  (cbcdec : list N -> list N -> list N -> option (list N)) (K : Type) (ealg epar : Z)
+  (dec : list N -> res (K * list N)) (pass inp : list N) (key : K) (rest : list N),
+  s9_open_as kdf cbcdec ealg epar dec pass inp = Ok (key, rest) ->
+  exists (p : pbes2) (enced pt kb : list N),
+  p8e_from_der inp = Ok (p, enced, rest) /\
+  cbcdec (kdf pass (p_salt p) (p_iter p)) (p_iv p) enced = Some pt /\
+  s9_pki_from_der pt = Ok (ealg, epar, kb, []) /\ dec kb = Ok (key, []).
+Proof. exact s9_open_as_inv. Qed.
+Print Assumptions C14_sm9_encrypted_key_open_sound.
+
+Theorem C14_sm9_encrypted_key_open_refuses :
+  (list N -> bool) ->
+  (list N -> bool) ->
+  forall (kdf : list N -> list N -> Z -> list N)
+  (cbcdec : list N -> list N -> list N -> option (list N)) (pass inp : list N) 
+  (p : pbes2) (enced rest : list N),
+  p8e_from_der inp = Ok (p, enced, rest) ->
+  cbcdec (kdf pass (p_salt p) (p_iter p)) (p_iv p) enced = None \/
+  (exists pt : list N,
+  cbcdec (kdf pass (p_salt p) (p_iter p)) (p_iv p) enced = Some pt /\
+  (forall (alg par : Z) (k : list N), s9_pki_from_der pt <> Ok (alg, par, k, []))) ->
+  s9_open kdf cbcdec pass inp = Err.
+Proof. exact s9_open_refuses. Qed.
+Print Assumptions C14_sm9_encrypted_key_open_refuses.
+
+Theorem C14_sm9_encrypted_key_other_type_refused :
+  forall (kdf : list N -> list N -> Z -> list N)
+  (cbcdec : list N -> list N -> list N -> option (list N)) (K : Type) (ealg epar : Z)
+  (dec : list N -> res (K * list N)) (pass inp : list N) (alg par : Z) (kb rest : list N),
+  s9_open kdf cbcdec pass inp = Ok (alg, par, kb, rest) ->
+  alg <> ealg \/ par <> epar -> s9_open_as kdf cbcdec ealg epar dec pass inp = Err.
+Proof. exact s9_open_as_other_type. Qed.
+Print Assumptions C14_sm9_encrypted_key_other_type_refused.
+
+Theorem C14_sm9_sign_master_key_seal_open_partial :
+  (list N -> bool) ->
+  forall (g2_ok : list N -> bool) (kdf : list N -> list N -> Z -> list N)
+  (cbcdec : list N -> list N -> list N -> option (list N))
+  (cbcenc : list N -> list N -> list N -> list N),
+  (forall key iv x : list N, cbcdec key iv (cbcenc key iv x) = Some x) ->
+  (forall key iv x : list N, len x <= 500 -> len (cbcenc key iv x) <= 512) ->
+  forall (k : sign_msk) (pass salt iv e rest : list N),
+  salt <> [] ->
+  len salt <= 1048576 ->
+  len iv = 16 ->
+  length (sm_ks k) = 32%nat ->
+  be_to_N (sm_ks k) < sm9_n ->
+  length (sm_Ppubs k) = 128%nat ->
+  g2_ok (4 :: sm_Ppubs k) = true ->
+  sign_msk_seal kdf cbcenc k pass salt iv = Ok e ->
+  sign_msk_open g2_ok kdf cbcdec pass (e ++ rest) = Ok (k, rest).
+Proof. exact sign_msk_seal_open. Qed.
+Print Assumptions C14_sm9_sign_master_key_seal_open_partial.
+
+Theorem C14_sm9_sign_key_seal_open_partial :
+  forall (g1_ok g2_ok : list N -> bool) (kdf : list N -> list N -> Z -> list N)
+  (cbcdec : list N -> list N -> list N -> option (list N))
+  (cbcenc : list N -> list N -> list N -> list N),
+  (forall key iv x : list N, cbcdec key iv (cbcenc key iv x) = Some x) ->
+  (forall key iv x : list N, len x <= 500 -> len (cbcenc key iv x) <= 512) ->
+  forall (k : sign_key) (pass salt iv e rest : list N),
+  salt <> [] ->
+  len salt <= 1048576 ->
+  len iv = 16 ->
+  length (sk_ds k) = 64%nat ->
+  g1_ok (4 :: sk_ds k) = true ->
+  length (sk_Ppubs k) = 128%nat ->
+  g2_ok (4 :: sk_Ppubs k) = true ->
+  sign_key_seal kdf cbcenc k pass salt iv = Ok e ->
+  sign_key_open g1_ok g2_ok kdf cbcdec pass (e ++ rest) = Ok (k, rest).
+Proof. exact sign_key_seal_open. Qed.
+Print Assumptions C14_sm9_sign_key_seal_open_partial.
+
+Theorem C14_sm9_enc_master_key_seal_open_partial :
+  forall g1_ok : list N -> bool,
+  (list N -> bool) ->
+  forall (kdf : list N -> list N -> Z -> list N)
+  (cbcdec : list N -> list N -> list N -> option (list N))
+  (cbcenc : list N -> list N -> list N -> list N),
+  (forall key iv x : list N, cbcdec key iv (cbcenc key iv x) = Some x) ->
+  (forall key iv x : list N, len x <= 500 -> len (cbcenc key iv x) <= 512) ->
+  forall (k : enc_msk) (pass salt iv e rest : list N),
+  salt <> [] ->
+  len salt <= 1048576 ->
+  len iv = 16 ->
+  length (em_ke k) = 32%nat ->
+  be_to_N (em_ke k) < sm9_n ->
+  length (em_Ppube k) = 64%nat ->
+  g1_ok (4 :: em_Ppube k) = true ->
+  enc_msk_seal kdf cbcenc k pass salt iv = Ok e ->
+  enc_msk_open g1_ok kdf cbcdec pass (e ++ rest) = Ok (k, rest).
+Proof. exact enc_msk_seal_open. Qed.
+Print Assumptions C14_sm9_enc_master_key_seal_open_partial.
+
+Theorem C14_sm9_enc_key_seal_open_partial :
+  forall (g1_ok g2_ok : list N -> bool) (kdf : list N -> list N -> Z -> list N)
+  (cbcdec : list N -> list N -> list N -> option (list N))
+  (cbcenc : list N -> list N -> list N -> list N),
+  (forall key iv x : list N, cbcdec key iv (cbcenc key iv x) = Some x) ->
+  (forall key iv x : list N, len x <= 500 -> len (cbcenc key iv x) <= 512) ->
+  forall (k : enc_key) (pass salt iv e rest : list N),
+  salt <> [] ->
+  len salt <= 1048576 ->
+  len iv = 16 ->
+  length (ek_de k) = 128%nat ->
+  g2_ok (4 :: ek_de k) = true ->
+  length (ek_Ppube k) = 64%nat ->
+  g1_ok (4 :: ek_Ppube k) = true ->
+  enc_key_seal kdf cbcenc k pass salt iv = Ok e ->
+  enc_key_open g1_ok g2_ok kdf cbcdec pass (e ++ rest) = Ok (k, rest).
+Proof. exact enc_key_seal_open. Qed.
+Print Assumptions C14_sm9_enc_key_seal_open_partial.
+
+Theorem C14_sm9_master_scalar_zero_accepted :
+  forall (ok : list N -> bool) (P rest : list N),
+  len P + 1 <= 1000 ->
+  ok (4 :: P) = true ->
+  exists e : list N,
+  msk_to_der (zeros 32) P = Ok e /\ msk_from_der (len P + 1) ok (e ++ rest) = Ok (zeros 32, P, rest).
+Proof. exact sm9_master_scalar_zero_accepted. Qed.
+Print Assumptions C14_sm9_master_scalar_zero_accepted.
+
+(* ---- signed time_t: with the proposed test, every accepted time stamp is >= 0 and round-trips; the text as it stands
+   answers 1 with a string that is not a time *)
+Theorem C14_time_signed_der_roundtrip :
+  forall (utc : bool) (tag : N) (t : Z) (e rest : list N),
+  time_to_der_z true utc tag t = Ok e ->
+  (0 <= t)%Z /\ time_from_der utc tag (e ++ rest) = Ok (Z.to_N t, rest).
+Proof. exact time_der_roundtrip_z. Qed.
+Print Assumptions C14_time_signed_der_roundtrip.
+
+Theorem C14_time_signed_range :
+  forall (utc : bool) (t : Z),
+  (exists s : list N, time_to_str_z true utc t = Some s) <-> (0 <= t)%Z /\ Z.to_N t < limit utc.
+Proof. exact time_to_str_z_range. Qed.
+Print Assumptions C14_time_signed_range.
+
+Theorem C14_refuted_time_negative_not_a_time :
+  time_to_str_z false true (-5) = Some [55; 48; 48; 49; 48; 49; 48; 48; 48; 48; 48; 43; 90] /\
+  time_from_str true [55; 48; 48; 49; 48; 49; 48; 48; 48; 48; 48; 43; 90] = Err.
+Proof. exact time_negative_asis_not_a_time. Qed.
+Print Assumptions C14_refuted_time_negative_not_a_time.
+
+(* ---- wave 5: CMS EncryptedContentInfo / EncryptedData encoders (Codec/Cms.v); the as-is encoder of EncryptedData is refuted *)
+From GmVerif Require Import Codec.Cms Codec.CmsProofs.
+
+Theorem C14_cms_content_type_roundtrip :
+  forall (ct : Z) (o rest : list N),
+  cms_content_type_to_der ct = Ok o ->
+  cms_content_type_from_der (o ++ rest) = Ok (ct, rest) /\ len o <= 129.
+Proof. exact cms_content_type_rt. Qed.
+Print Assumptions C14_cms_content_type_roundtrip.
+
+Theorem C14_cms_x509_encryption_algorithm_roundtrip :
+  forall (id : Z) (iv e rest : list N),
+  len iv = 16 ->
+  x509_enc_algor_to_der id iv = Ok e ->
+  x509_enc_algor_from_der (e ++ rest) = Ok (id, iv, rest) /\ len e <= 163.
+Proof. exact x509_enc_algor_rt. Qed.
+Print Assumptions C14_cms_x509_encryption_algorithm_roundtrip.
+
+Theorem C14_cms_enced_content_info_roundtrip :
+  forall (ct alg : Z) (iv : list N) (ec s1 s2 : option (list N)) (e rest : list N),
+  len iv = 16 ->
+  olen ec + olen s1 + olen s2 <= 1073741824 ->
+  cms_enced_content_info_to_der ct alg iv ec s1 s2 = Ok e ->
+  cms_enced_content_info_from_der (e ++ rest) = Ok (ct, alg, iv, optp ec, optp s1, optp s2, rest) /\
+  len e <= olen ec + olen s1 + olen s2 + 320.
+Proof. exact cms_enced_content_info_rt. Qed.
+Print Assumptions C14_cms_enced_content_info_roundtrip.
+
+Theorem C14_cms_encrypted_data_roundtrip :
+  forall (ct alg : Z) (iv : list N) (ec s1 s2 : option (list N)) (e rest : list N),
+  len iv = 16 ->
+  olen ec + olen s1 + olen s2 <= 1073741824 ->
+  cms_encrypted_data_to_der true 1 ct alg iv ec s1 s2 = Ok e ->
+  cms_encrypted_data_from_der (e ++ rest) = Ok (1%Z, ct, alg, iv, optp ec, optp s1, optp s2, rest).
+Proof. exact cms_encrypted_data_roundtrip. Qed.
+Print Assumptions C14_cms_encrypted_data_roundtrip.
+
+Theorem C14_refuted_cms_encrypted_data_encoder_truncated :
+  let iv := [0; 1; 2; 3; 4; 5; 6; 7; 8; 9; 10; 11; 12; 13; 14; 15] in
+  cms_encrypted_data_to_der false 1 OID_cms_data OID_sm4_cbc iv (Some [170; 187]) None None =
+  Ok [48; 51; 2; 1; 1] /\
+  cms_encrypted_data_from_der [48; 51; 2; 1; 1] = Err /\
+  (exists e : list N,
+  cms_encrypted_data_to_der true 1 OID_cms_data OID_sm4_cbc iv (Some [170; 187]) None None = Ok e /\
+  len e = 53 /\
+  cms_encrypted_data_from_der e =
+  Ok (1%Z, OID_cms_data, OID_sm4_cbc, iv, PBuf [170; 187], PNull, PNull, [])).
+Proof. exact cms_encrypted_data_to_der_asis_truncated. Qed.
+Print Assumptions C14_refuted_cms_encrypted_data_encoder_truncated.
+
+Theorem C14_cms_encrypted_data_asis_is_header_and_version :
+  forall (ver ct alg : Z) (iv : list N) (ec s1 s2 : option (list N)) (e : list N),
+  cms_encrypted_data_to_der false ver ct alg iv ec s1 s2 = Ok e ->
+  exists v c : list N,
+  int_to_der 2 ver = Ok v /\
+  cms_enced_content_info_to_der ct alg iv ec s1 s2 = Ok c /\
+  e = header_enc 48 (len v + len c) ++ v /\
+  cms_encrypted_data_to_der true ver ct alg iv ec s1 s2 = Ok (e ++ c).
+Proof. exact cms_encrypted_data_to_der_asis_short. Qed.
+Print Assumptions C14_cms_encrypted_data_asis_is_header_and_version.
+
+Theorem C14_cms_recipient_info_trailing_accepted :
+  cms_recipient_info_from_der
+  [48; 32; 2; 1; 1; 48; 5; 48; 0; 2; 1; 5; 48; 11; 6; 9; 42; 129; 28; 207; 85; 1; 130; 45; 2; 4; 1; 0;
+  5; 0; 222; 173; 190; 239] = Ok (1%Z, [], [5], OID_sm2encrypt, PNull, [0], []).
+Proof. exact cms_recipient_info_trailing_accepted. Qed.
+Print Assumptions C14_cms_recipient_info_trailing_accepted.
+
+Theorem C14_cms_enveloped_data_version_unchecked :
+  cms_enveloped_data_from_der
+  [48; 35; 2; 1; 2; 49; 28; 48; 26; 2; 1; 1; 48; 5; 48; 0; 2; 1; 5; 48; 11; 6; 9; 42; 129; 28; 207;
+  85; 1; 130; 45; 2; 4; 1; 0; 5; 0] =
+  Ok
+  (2%Z,
+  [48; 26; 2; 1; 1; 48; 5; 48; 0; 2; 1; 5; 48; 11; 6; 9; 42; 129; 28; 207; 85; 1; 130; 45; 2; 4; 1; 0],
+  [5; 0], []).
+Proof. exact cms_enveloped_data_version_unchecked. Qed.
+Print Assumptions C14_cms_enveloped_data_version_unchecked.
+
+(* ---- the intermediate PKCS#5 / PKCS#8 levels and the SM2 / curve identifiers, each on its own (they were covered only through
+   the outer EncryptedPrivateKeyInfo theorem before) *)
+From GmVerif Require Import Codec.Pkcs Codec.PkcsProofs.
+
+Theorem C14_named_curve_roundtrip :
+  forall (id : Z) (e rest : list N),
+  curve_to_der id = Ok e -> curve_from_der (e ++ rest) = Ok (id, rest).
+Proof. exact curve_roundtrip. Qed.
+Print Assumptions C14_named_curve_roundtrip.
+
+Theorem C14_sm2_algorithm_identifier_roundtrip :
+  forall e rest : list N, sm2_algor_to_der = Ok e -> sm2_algor_from_der (e ++ rest) = Ok rest.
+Proof. exact sm2_algor_roundtrip. Qed.
+Print Assumptions C14_sm2_algorithm_identifier_roundtrip.
+
+Theorem C14_pbes2_enc_algorithm_roundtrip :
+  forall (id : Z) (iv e rest : list N),
+  len iv = 16 ->
+  pbes2_enc_algor_to_der id iv = Ok e ->
+  id = 20%Z /\ pbes2_enc_algor_from_der (e ++ rest) = Ok (20%Z, iv, rest).
+Proof. exact pbes2_enc_algor_roundtrip. Qed.
+Print Assumptions C14_pbes2_enc_algorithm_roundtrip.
+
+Theorem C14_pbkdf2_prf_roundtrip :
+  forall (prf : Z) (ep rest : list N),
+  prf = (-1)%Z \/ prf = 30%Z ->
+  opt_enc (prf_to_der prf) = Ok ep ->
+  not_tag 48 rest -> prf_from_der (ep ++ rest) = Ok (prf, rest) /\ len ep <= 135 /\ not_tag 2 ep.
+Proof. exact prf_rt. Qed.
+Print Assumptions C14_pbkdf2_prf_roundtrip.
+
+Theorem C14_pbkdf2_algorithm_roundtrip :
+  forall (salt : list N) (iter keylen prf : Z) (e rest : list N),
+  salt <> [] ->
+  len salt <= 1048576 ->
+  (0 < iter < 2 ^ 31)%Z ->
+  keylen = (-1)%Z \/ (0 <= keylen < 2 ^ 31)%Z ->
+  prf = (-1)%Z \/ prf = 30%Z ->
+  pbkdf2_algor_to_der salt iter keylen prf = Ok e ->
+  pbkdf2_algor_from_der (e ++ rest) = Ok (salt, iter, keylen, prf, rest).
+Proof. exact pbkdf2_algor_roundtrip. Qed.
+Print Assumptions C14_pbkdf2_algorithm_roundtrip.
+
+Theorem C14_pbes2_params_roundtrip :
+  forall (p : pbes2) (e rest : list N),
+  pbes2_ok p -> pbes2_params_to_der p = Ok e -> pbes2_params_from_der (e ++ rest) = Ok (p, rest).
+Proof. exact pbes2_params_roundtrip. Qed.
+Print Assumptions C14_pbes2_params_roundtrip.
+
+Theorem C14_pbes2_algorithm_roundtrip :
+  forall (p : pbes2) (e rest : list N),
+  pbes2_ok p -> pbes2_algor_to_der p = Ok e -> pbes2_algor_from_der (e ++ rest) = Ok (p, rest).
+Proof. exact pbes2_algor_roundtrip. Qed.
+Print Assumptions C14_pbes2_algorithm_roundtrip.
+
